@@ -472,7 +472,7 @@ def r8(text):
 def r9(text):
     n = 0
     while True:
-        m = re.search(r"(\w+)\.iter\(\)\s*\.try_fold\(", text)
+        m = re.search(r"(\w+)\s*\.iter\(\)\s*\.try_fold\(", text)
         if not m:
             break
         o = m.end() - 1
